@@ -1,4 +1,665 @@
+// ftype engine (DESIGN §2.2): forest-indexed typing of node handles.
+// Every node_handle belongs to one forest.  The engine gives each handle variable a *forest symbol*
+//   this.F   a forest* member of the enclosing class (arg1F, arg2F, resF, argF, …)
+//   var.f    a forest* local / parameter
+//   edge.e   "the forest edge e is attached to" (unknown until a check equates it with another symbol)
+//   *        terminal handle (forest independent: OMEGA terminals / zero)
+// and reports a handle typed S1 that is used where S2 is required and S1 ≢ S2.  Symbols are equated only by
+// construction (same expression given twice to the base constructor), by a dominating `X == Y`, by
+// `e.isAttachedTo(F)` / `e.getForest() == F` tests, by `dd_edge e(F)` / `e.attach(F)`, or by sameForest().
+// Unknown symbols never alarm.  Path-sensitive over the CFG (disjunctive states), like the own engine.
 #include "common.h"
+
 namespace msa {
-llvm::json::Value runFtype(ASTContext &Ctx) { return nullptr; }
+using llvm::json::Array;
+using llvm::json::Object;
+using llvm::json::Value;
+
+namespace {
+
+bool isRec(QualType QT, const char *name) {
+  if (QT.isNull()) return false;
+  if (QT->isPointerType() || QT->isReferenceType()) QT = QT->getPointeeType();
+  if (QT.isNull()) return false;
+  const CXXRecordDecl *RD = QT->getAsCXXRecordDecl();
+  return RD && derivesFrom(RD, name);
 }
+bool isForestExpr(const Expr *E) { return E && E->getType()->isPointerType() && isRec(E->getType(), "forest"); }
+
+typedef std::string Sym;
+const Sym STAR = "*";
+
+struct St {
+  std::map<const VarDecl *, Sym> hv;     // handle variable -> symbol ("" unknown)
+  std::map<const VarDecl *, Sym> nodes;  // unpacked_node* variable -> forest symbol
+  std::map<Sym, Sym> rep;                // union-find of equated symbols
+  std::string key() const {
+    std::ostringstream os;
+    for (auto &p : hv) os << (const void *)p.first << "=" << p.second << ";";
+    for (auto &p : nodes) os << "n" << (const void *)p.first << "=" << p.second << ";";
+    for (auto &p : rep) os << p.first << "~" << p.second << ";";
+    return os.str();
+  }
+  Sym find(Sym s) const {
+    for (int i = 0; i < 32; i++) { auto it = rep.find(s); if (it == rep.end() || it->second == s) return s; s = it->second; }
+    return s;
+  }
+  void unite(const Sym &a, const Sym &b) {
+    if (a.empty() || b.empty() || a == STAR || b == STAR) return;
+    Sym ra = find(a), rb = find(b);
+    if (ra == rb) return;
+    if (ra < rb) rep[rb] = ra; else rep[ra] = rb;
+  }
+  bool same(const Sym &a, const Sym &b) const {
+    if (a.empty() || b.empty() || a == STAR || b == STAR) return true;
+    return find(a) == find(b);
+  }
+};
+
+struct Diag { std::string rule, sink, msg; unsigned line; };
+
+// per-class facts shared by all methods of that class (in this TU)
+struct ClassFacts {
+  std::vector<std::pair<Sym, Sym>> equal;                      // members equated by construction / constructor checks
+  std::map<std::string, std::pair<Sym, Sym>> helperOps;        // member operation -> (argument forest symbol, result forest symbol)
+  std::map<std::string, std::vector<Sym>> helperBin;           // member binary operation -> (arg1, arg2, res)
+  bool done = false;
+};
+std::map<const CXXRecordDecl *, ClassFacts> classFacts;
+// parameter typings of private helpers, inferred from call sites inside the class: method -> param index -> symbol ("?" = conflicting)
+std::map<const FunctionDecl *, std::map<unsigned, Sym>> inferred;
+
+std::vector<std::string> baseForestFields(const CXXRecordDecl *RD) {
+  // positional forest fields set by the root operation constructors
+  if (derivesFrom(RD, "binary_operation")) return {"arg1F", "arg2F", "resF"};
+  if (derivesFrom(RD, "unary_operation")) return {"argF", "resF"};
+  return {};
+}
+
+struct An {
+  ASTContext &Ctx;
+  const FunctionDecl *FD;
+  const SourceManager &SM;
+  const CXXRecordDecl *Cls = nullptr;
+  std::vector<Diag> diags;
+  unsigned nStates = 0, nChecks = 0, nTyped = 0;
+  bool giveUp = false;
+  std::set<std::pair<const Stmt *, std::string>> reported;
+  std::set<const Stmt *> counted;
+  std::set<const VarDecl *> outParams;
+  std::map<const VarDecl *, Sym> exitRole;
+
+  An(ASTContext &C, const FunctionDecl *F) : Ctx(C), FD(F), SM(C.getSourceManager()) {
+    if (auto *MD = dyn_cast<CXXMethodDecl>(F)) Cls = MD->getParent();
+  }
+  void report(const char *rule, const Stmt *At, const std::string &sink, const std::string &msg) {
+    if (!reported.insert({At, sink}).second) return;
+    diags.push_back({rule, sink, msg, lineOf(SM, At->getBeginLoc())});
+  }
+  void check(const Stmt *At) { if (counted.insert(At).second) nChecks++; }
+
+  // ---- symbols of forest-valued expressions -------------------------------------------------
+  Sym forestSym(const Expr *E0) {
+    const Expr *E = strip(E0);
+    if (!E) return "";
+    if (auto *CC = dyn_cast<CXXConstCastExpr>(E)) return forestSym(CC->getSubExpr());
+    if (isa<CXXThisExpr>(E)) return "this";
+    if (auto *ME = dyn_cast<MemberExpr>(E)) {
+      if (isa<CXXThisExpr>(strip(ME->getBase())) && isa<FieldDecl>(ME->getMemberDecl())) return "this." + ME->getMemberDecl()->getNameAsString();
+      return "";
+    }
+    if (auto *DR = dyn_cast<DeclRefExpr>(E)) {
+      if (auto *VD = dyn_cast<VarDecl>(DR->getDecl())) if (VD->isLocalVarDeclOrParm()) return "var." + VD->getNameAsString();
+      return "";
+    }
+    if (auto *MC = dyn_cast<CXXMemberCallExpr>(E)) {
+      const FunctionDecl *F = calleeOf(MC);
+      if (!F) return "";
+      std::string n = F->getNameAsString();
+      const Expr *Obj = strip(MC->getImplicitObjectArgument());
+      if (n == "getForest" && isRec(Obj->getType(), "dd_edge")) return edgeSym(Obj);
+      if (n == "getParent" && isRec(Obj->getType(), "unpacked_node")) return "";
+      if ((n == "getOp1F" || n == "getOp2F" || n == "getResF" || n == "getArgF") && isa<CXXThisExpr>(Obj)) {
+        if (n == "getOp1F") return "this.arg1F";
+        if (n == "getOp2F") return "this.arg2F";
+        if (n == "getResF") return "this.resF";
+        return "this.argF";
+      }
+    }
+    return "";
+  }
+  Sym edgeSym(const Expr *E0) {
+    const Expr *E = strip(E0);
+    if (auto *DR = dyn_cast_or_null<DeclRefExpr>(E)) if (auto *VD = dyn_cast<VarDecl>(DR->getDecl())) return "edge." + VD->getNameAsString();
+    if (auto *ME = dyn_cast_or_null<MemberExpr>(E)) if (isa<CXXThisExpr>(strip(ME->getBase()))) return "edge.this." + ME->getMemberDecl()->getNameAsString();
+    if (isa_and_nonnull<CXXThisExpr>(E)) return "edge.this";
+    return "";
+  }
+  const VarDecl *handleVar(const Expr *E0) {
+    const Expr *E = strip(E0);
+    if (auto *DR = dyn_cast_or_null<DeclRefExpr>(E)) if (auto *VD = dyn_cast<VarDecl>(DR->getDecl())) if (isNodeHandleType(VD->getType()) && VD->isLocalVarDeclOrParm()) return VD;
+    return nullptr;
+  }
+  const VarDecl *nodeVar(const Expr *E0) {
+    const Expr *E = strip(E0);
+    if (auto *UO = dyn_cast_or_null<UnaryOperator>(E)) if (UO->getOpcode() == UO_Deref) E = strip(UO->getSubExpr());
+    if (auto *DR = dyn_cast_or_null<DeclRefExpr>(E)) if (auto *VD = dyn_cast<VarDecl>(DR->getDecl())) if (isRec(VD->getType(), "unpacked_node")) return VD;
+    return nullptr;
+  }
+
+  // symbol of a handle-valued expression in state S ("" unknown, "*" terminal)
+  Sym symOf(St &S, const Expr *E0) {
+    const Expr *E = strip(E0);
+    if (!E) return "";
+    if (isa<IntegerLiteral>(E)) return STAR;
+    if (auto *UO = dyn_cast<UnaryOperator>(E)) if (UO->getOpcode() == UO_Minus && isa<IntegerLiteral>(strip(UO->getSubExpr()))) return STAR;
+    if (auto *DR = dyn_cast<DeclRefExpr>(E)) {
+      if (const VarDecl *VD = handleVar(E)) { auto it = S.hv.find(VD); return it == S.hv.end() ? "" : it->second; }
+      if (DR->getDecl()->getNameAsString().rfind("OMEGA_", 0) == 0) return STAR;
+      return "";
+    }
+    if (auto *CO = dyn_cast<ConditionalOperator>(E)) {
+      Sym a = symOf(S, CO->getTrueExpr()), b = symOf(S, CO->getFalseExpr());
+      if (a == b) return a;
+      if (a == STAR) return b;
+      if (b == STAR) return a;
+      return S.same(a, b) ? a : "";
+    }
+    if (auto *MC = dyn_cast<CXXMemberCallExpr>(E)) {
+      const FunctionDecl *F = calleeOf(MC);
+      if (!F) return "";
+      auto *MD = dyn_cast<CXXMethodDecl>(F);
+      const Expr *Obj = MC->getImplicitObjectArgument();
+      std::string n = F->getNameAsString();
+      if (isRec(Obj->getType(), "unpacked_node") && n == "down") {
+        if (const VarDecl *NV = nodeVar(Obj)) { auto it = S.nodes.find(NV); if (it != S.nodes.end()) return it->second; }
+        return "";
+      }
+      if (isRec(Obj->getType(), "forest") && MD && !MD->isStatic() && isNodeHandleType(F->getReturnType())) return forestSym(Obj);
+      if (isRec(Obj->getType(), "dd_edge") && n == "getNode") return edgeSym(Obj);
+      if (isRec(Obj->getType(), "terminal") && (n == "getHandle" || n == "getIntegerHandle" || n == "getRealHandle")) return STAR;
+    }
+    return "";
+  }
+
+  void require(St &S, const Expr *Arg, const Sym &need, const Stmt *At, const std::string &what) {
+    if (need.empty()) return;
+    check(At);
+    if (const VarDecl *VD = handleVar(Arg)) {
+      auto it = S.hv.find(VD);
+      if (it == S.hv.end() || it->second.empty()) { S.hv[VD] = need; nTyped++; return; }
+      if (!S.same(it->second, need))
+        report("ftype.mix", At, what + "(" + VD->getNameAsString() + ")", "handle '" + VD->getNameAsString() + "' belongs to " + it->second + " but is used with " + need + " in " + what);
+      return;
+    }
+    Sym have = symOf(S, Arg);
+    if (!have.empty() && !S.same(have, need))
+      report("ftype.mix", At, what + "(" + exprText(Ctx, Arg) + ")", "expression `" + exprText(Ctx, Arg) + "` belongs to " + have + " but is used with " + need + " in " + what);
+  }
+  void define(St &S, const Expr *Target, const Sym &sym) {
+    if (const VarDecl *VD = handleVar(Target)) { S.hv[VD] = sym; if (!sym.empty()) nTyped++; }
+  }
+
+  // ---- class facts ------------------------------------------------------------------------------
+  static Sym paramToField(const CXXConstructorDecl *CD, const Expr *E, const std::map<const ParmVarDecl *, Sym> &pm) {
+    const Expr *X = strip(E);
+    if (auto *DR = dyn_cast_or_null<DeclRefExpr>(X)) if (auto *PV = dyn_cast<ParmVarDecl>(DR->getDecl())) { auto it = pm.find(PV); if (it != pm.end()) return it->second; }
+    if (auto *ME = dyn_cast_or_null<MemberExpr>(X)) if (isa<CXXThisExpr>(strip(ME->getBase()))) return "this." + ME->getMemberDecl()->getNameAsString();
+    return "";
+  }
+  static void buildClassFacts(const CXXRecordDecl *RD) {
+    ClassFacts &CF = classFacts[RD];
+    if (CF.done) return;
+    CF.done = true;
+    if (!RD->hasDefinition()) return;
+    std::vector<std::string> fields = baseForestFields(RD);
+    for (const CXXConstructorDecl *CD0 : RD->ctors()) {
+      const FunctionDecl *Def = nullptr;
+      if (!CD0->hasBody(Def) || !Def) continue;
+      const CXXConstructorDecl *CD = cast<CXXConstructorDecl>(Def);   // initialisers live on the definition
+      // which constructor parameter feeds which positional forest field (through any chain of base constructors)
+      std::map<const ParmVarDecl *, Sym> pm;
+      std::function<void(const CXXConstructorDecl *, std::vector<const Expr *>)> walk = [&](const CXXConstructorDecl *C, std::vector<const Expr *> /*unused*/) {};
+      (void)walk;
+      for (const CXXCtorInitializer *I : CD->inits()) {
+        if (!I->isBaseInitializer()) continue;
+        auto *CE = dyn_cast<CXXConstructExpr>(strip(I->getInit()));
+        if (!CE) { if (auto *EWC = dyn_cast_or_null<ExprWithCleanups>(I->getInit())) CE = dyn_cast<CXXConstructExpr>(strip(EWC->getSubExpr())); }
+        if (!CE) continue;
+        // forest-typed arguments in order
+        std::vector<const Expr *> fargs;
+        for (const Expr *A : CE->arguments()) if (isForestExpr(A)) fargs.push_back(A);
+        const CXXRecordDecl *BD = CE->getConstructor()->getParent();
+        bool root = nameIs(BD, "binary_operation") || nameIs(BD, "unary_operation");
+        if (root) {
+          for (unsigned i = 0; i < fargs.size() && i < fields.size(); i++) {
+            if (auto *DR = dyn_cast<DeclRefExpr>(strip(fargs[i]))) if (auto *PV = dyn_cast<ParmVarDecl>(DR->getDecl())) {
+              auto it = pm.find(PV);
+              if (it != pm.end()) CF.equal.push_back({it->second, "this." + fields[i]});   // same parameter given twice
+              else pm[PV] = "this." + fields[i];
+            }
+          }
+        } else if (BD->hasDefinition()) {
+          // derived from an intermediate class: inherit its equalities; parameter mapping by the intermediate's own mapping is not followed
+          buildClassFacts(BD->getDefinition());
+          for (auto &e : classFacts[BD->getDefinition()].equal) CF.equal.push_back(e);
+          for (auto &h : classFacts[BD->getDefinition()].helperOps) CF.helperOps.insert(h);
+        }
+      }
+      // constructor body: member = build(COPY, f1, f2) / COPY(f1, f2); if (X != Y) throw
+      struct BV : RecursiveASTVisitor<BV> {
+        ClassFacts *CF; const CXXConstructorDecl *CD; std::map<const ParmVarDecl *, Sym> *pm;
+        bool VisitBinaryOperator(BinaryOperator *BO) {
+          if (BO->getOpcode() != BO_Assign) return true;
+          auto *ME = dyn_cast<MemberExpr>(strip(BO->getLHS()));
+          if (!ME || !isa<CXXThisExpr>(strip(ME->getBase()))) return true;
+          auto *CE = dyn_cast<CallExpr>(strip(BO->getRHS()));
+          if (!CE) return true;
+          const FunctionDecl *F = calleeOf(CE);
+          if (!F) return true;
+          std::vector<Sym> fs;
+          for (const Expr *A : CE->arguments()) if (isForestExpr(A)) fs.push_back(paramToField(CD, A, *pm));
+          if (isRec(BO->getLHS()->getType(), "unary_operation") && fs.size() == 2 && !fs[0].empty() && !fs[1].empty())
+            CF->helperOps[ME->getMemberDecl()->getNameAsString()] = {fs[0], fs[1]};
+          if (isRec(BO->getLHS()->getType(), "binary_operation") && fs.size() == 3 && !fs[0].empty() && !fs[1].empty() && !fs[2].empty())
+            CF->helperBin[ME->getMemberDecl()->getNameAsString()] = fs;
+          return true;
+        }
+        bool VisitIfStmt(IfStmt *IS) {
+          // if (X != Y) throw …;  ⇒ X ≡ Y for every object of the class
+          auto *BO = dyn_cast<BinaryOperator>(strip(IS->getCond()));
+          if (!BO || BO->getOpcode() != BO_NE) return true;
+          if (!isForestExpr(BO->getLHS()) || !isForestExpr(BO->getRHS())) return true;
+          const Stmt *Th = IS->getThen();
+          bool throws = false;
+          if (Th) { struct TV : RecursiveASTVisitor<TV> { bool t = false; bool VisitCXXThrowExpr(CXXThrowExpr *) { t = true; return true; } } tv; tv.TraverseStmt(const_cast<Stmt *>(Th)); throws = tv.t; }
+          if (!throws) return true;
+          Sym a = paramToField(CD, BO->getLHS(), *pm), b = paramToField(CD, BO->getRHS(), *pm);
+          if (!a.empty() && !b.empty()) CF->equal.push_back({a, b});
+          return true;
+        }
+      } bv;
+      bv.CF = &CF; bv.CD = CD; bv.pm = &pm;
+      bv.TraverseStmt(CD->getBody());
+    }
+  }
+
+  // ---- entry typing -----------------------------------------------------------------------------
+  void entry(St &S) {
+    // forest/handle parameter groups: (forest* f, [edge_value], node_handle h) ⇒ h : var.f
+    Sym lastForest;
+    for (unsigned i = 0; i < FD->getNumParams(); i++) {
+      const ParmVarDecl *P = FD->getParamDecl(i);
+      if (P->getType()->isPointerType() && isRec(P->getType(), "forest")) { lastForest = "var." + P->getNameAsString(); continue; }
+      if (isNodeHandleType(P->getType())) { if (!lastForest.empty()) { S.hv[P] = lastForest; nTyped++; } continue; }
+      if (isRec(P->getType(), "edge_value")) continue;
+      lastForest.clear();
+    }
+    if (!Cls) return;
+    buildClassFacts(Cls);
+    for (auto &e : classFacts[Cls].equal) S.unite(e.first, e.second);
+    // the documented roles of the virtual compute(L, in, av, ap, [bv, bp,] cv, cp&)
+    std::vector<std::string> fields = baseForestFields(Cls);
+    if (!fields.empty() && FD->getNameAsString() == "compute") {
+      std::vector<const ParmVarDecl *> in, out;
+      for (unsigned i = 0; i < FD->getNumParams(); i++) {
+        bool ref; const ParmVarDecl *P = FD->getParamDecl(i);
+        if (!isNodeHandleType(P->getType(), ref)) continue;
+        if (ref && !P->getType().getNonReferenceType().isConstQualified()) out.push_back(P); else in.push_back(P);
+      }
+      if (in.size() + 1 == fields.size() && out.size() == 1) {
+        for (unsigned i = 0; i < in.size(); i++) { S.hv[in[i]] = "this." + fields[i]; nTyped++; }
+        exitRole[out[0]] = "this." + fields.back();
+        outParams.insert(out[0]);
+      }
+    }
+    auto it = inferred.find(FD->getCanonicalDecl());
+    if (it != inferred.end()) for (auto &p : it->second) if (p.second != "?" && p.first < FD->getNumParams()) {
+      const ParmVarDecl *P = FD->getParamDecl(p.first);
+      bool ref; isNodeHandleType(P->getType(), ref);
+      if (ref && !P->getType().getNonReferenceType().isConstQualified()) { exitRole[P] = p.second; outParams.insert(P); }
+      else if (!S.hv.count(P)) { S.hv[P] = p.second; nTyped++; }
+    }
+  }
+
+  // ---- transfer ---------------------------------------------------------------------------------
+  void noteNodeInit(St &S, const VarDecl *NV, const Expr *Init, const Stmt *At) {
+    const Expr *E = strip(Init);
+    if (auto *CO = dyn_cast_or_null<ConditionalOperator>(E)) {
+      St A = S, B = S;
+      noteNodeInit(A, NV, CO->getTrueExpr(), At);
+      noteNodeInit(B, NV, CO->getFalseExpr(), At);
+      Sym a = A.nodes.count(NV) ? A.nodes[NV] : "", b = B.nodes.count(NV) ? B.nodes[NV] : "";
+      S.nodes[NV] = (a == b || S.same(a, b)) ? a : "";
+      return;
+    }
+    if (auto *CE = dyn_cast_or_null<CallExpr>(E)) if (const FunctionDecl *C = calleeOf(CE)) {
+      std::string q = qualName(C);
+      if (q.rfind("MEDDLY::unpacked_node::", 0) == 0 && CE->getNumArgs() >= 1 && isForestExpr(CE->getArg(0))) {
+        Sym s = forestSym(CE->getArg(0));
+        S.nodes[NV] = s;
+        for (unsigned i = 1; i < CE->getNumArgs() && i < C->getNumParams(); i++)
+          if (isNodeHandleType(C->getParamDecl(i)->getType())) require(S, CE->getArg(i), s, At, C->getNameAsString());
+        return;
+      }
+    }
+    if (const VarDecl *Other = nodeVar(Init)) { auto it = S.nodes.find(Other); S.nodes[NV] = it == S.nodes.end() ? "" : it->second; return; }
+    S.nodes[NV] = "";
+  }
+
+  void handleCall(St &S, const CallExpr *CE) {
+    const FunctionDecl *C = calleeOf(CE);
+    if (!C) return;
+    std::string q = qualName(C), n = C->getNameAsString();
+    unsigned off = (isa<CXXOperatorCallExpr>(CE) && isa<CXXMethodDecl>(C)) ? 1 : 0;
+    auto *MC = dyn_cast<CXXMemberCallExpr>(CE);
+    const CXXMethodDecl *MD = dyn_cast<CXXMethodDecl>(C);
+    const Expr *Obj = MC ? MC->getImplicitObjectArgument() : nullptr;
+
+    // SWAP(a, b) exchanges the symbols
+    if (n == "SWAP" && CE->getNumArgs() == 2) {
+      const VarDecl *A = handleVar(CE->getArg(0)), *B = handleVar(CE->getArg(1));
+      if (A && B) { Sym a = S.hv.count(A) ? S.hv[A] : "", b = S.hv.count(B) ? S.hv[B] : ""; S.hv[A] = b; S.hv[B] = a; }
+      return;
+    }
+    // forest methods
+    if (Obj && MD && !MD->isStatic() && isRec(Obj->getType(), "forest") && !isRec(Obj->getType(), "unpacked_node")) {
+      Sym s = forestSym(Obj);
+      if (!s.empty()) {
+        // unpacked node handed to the forest must be a node of that forest
+        for (unsigned i = 0; i + off < CE->getNumArgs() && i < C->getNumParams(); i++) {
+          const Expr *A = CE->getArg(i + off);
+          bool ref;
+          if (isNodeHandleType(C->getParamDecl(i)->getType(), ref)) {
+            bool isOut = ref && !C->getParamDecl(i)->getType().getNonReferenceType().isConstQualified();
+            if (isOut) { define(S, A, s); }
+            else require(S, A, s, CE, s + "->" + n);
+          } else if (const VarDecl *NV = nodeVar(A)) {
+            if (n == "createReducedNode" || n == "modifyReducedNodeInPlace") {
+              check(CE);
+              auto it = S.nodes.find(NV);
+              if (it != S.nodes.end() && !it->second.empty() && !S.same(it->second, s))
+                report("ftype.mix", CE, s + "->" + n + "(" + NV->getNameAsString() + ")", "unpacked node '" + NV->getNameAsString() + "' was built for " + it->second + " but is reduced in " + s);
+            }
+          }
+        }
+      }
+      return;
+    }
+    // unpacked_node methods
+    if (Obj && isRec(Obj->getType(), "unpacked_node")) {
+      const VarDecl *NV = nodeVar(Obj);
+      Sym s = NV && S.nodes.count(NV) ? S.nodes[NV] : "";
+      if (n == "initFromNode" || n == "initRedundant" || n == "initIdentity" || n == "setFull" || n == "setSparse" || n == "_initRedundant" || n == "_initIdentity") {
+        for (unsigned i = 0; i < CE->getNumArgs() && i < C->getNumParams(); i++)
+          if (isNodeHandleType(C->getParamDecl(i)->getType())) require(S, CE->getArg(i), s, CE, (NV ? NV->getNameAsString() : std::string("node")) + "->" + n);
+      }
+      return;
+    }
+    // static factories of unpacked_node used as statements (results are handled by noteNodeInit)
+    // dd_edge methods
+    if (Obj && isRec(Obj->getType(), "dd_edge")) {
+      Sym es = edgeSym(Obj);
+      if (n == "set" || n == "set_and_link") {
+        for (unsigned i = 0; i < CE->getNumArgs() && i < C->getNumParams(); i++)
+          if (isNodeHandleType(C->getParamDecl(i)->getType())) require(S, CE->getArg(i), es, CE, exprText(Ctx, Obj) + "." + n);
+      } else if (n == "attach" && CE->getNumArgs() == 1) {
+        Sym f = forestSym(CE->getArg(0));
+        // re-attachment: forget old equalities of this edge (conservative: keep it simple, equate)
+        if (!es.empty() && !f.empty()) S.unite(es, f);
+      } else if (n == "xferNode" && CE->getNumArgs() == 1) {
+        define(S, CE->getArg(0), es);
+      }
+      return;
+    }
+    // helper operations built in the constructor: member->compute(L, in, av, A, cv, C)
+    if (Obj && MD && Cls && (n == "compute") && (isRec(Obj->getType(), "unary_operation") || isRec(Obj->getType(), "binary_operation"))) {
+      buildClassFacts(Cls);
+      std::vector<Sym> roles;
+      if (auto *ME = dyn_cast<MemberExpr>(strip(Obj))) {
+        std::string mn = ME->getMemberDecl()->getNameAsString();
+        auto hu = classFacts[Cls].helperOps.find(mn);
+        if (hu != classFacts[Cls].helperOps.end()) roles = {hu->second.first, hu->second.second};
+        auto hb = classFacts[Cls].helperBin.find(mn);
+        if (hb != classFacts[Cls].helperBin.end()) roles = hb->second;
+      } else if (isa<CXXThisExpr>(strip(Obj))) {
+        for (auto &f : baseForestFields(Cls)) roles.push_back("this." + f);
+      }
+      if (!roles.empty()) {
+        unsigned k = 0;
+        for (unsigned i = 0; i < CE->getNumArgs() && i < C->getNumParams(); i++) {
+          bool ref;
+          if (!isNodeHandleType(C->getParamDecl(i)->getType(), ref)) continue;
+          bool isOut = ref && !C->getParamDecl(i)->getType().getNonReferenceType().isConstQualified();
+          if (isOut) define(S, CE->getArg(i), roles.back());
+          else { if (k + 1 < roles.size()) require(S, CE->getArg(i), roles[k], CE, exprText(Ctx, Obj) + "->compute[operand " + std::to_string(k + 1) + "]"); k++; }
+        }
+      }
+      return;
+    }
+    // calls inside the class (private helpers, recursion): record / check parameter typings
+    if (MD && Cls && MD->getParent()->getCanonicalDecl() == Cls->getCanonicalDecl() && (!Obj || isa<CXXThisExpr>(strip(Obj)))) {
+      auto &tab = inferred[C->getCanonicalDecl()];
+      bool self = C->getCanonicalDecl() == FD->getCanonicalDecl();
+      for (unsigned i = 0; i + off < CE->getNumArgs() && i < C->getNumParams(); i++) {
+        bool ref;
+        if (!isNodeHandleType(C->getParamDecl(i)->getType(), ref)) continue;
+        bool isOut = ref && !C->getParamDecl(i)->getType().getNonReferenceType().isConstQualified();
+        const Expr *A = CE->getArg(i + off);
+        Sym have = symOf(S, A);
+        if (isOut) {
+          // result: typed by the callee's own exit role when known
+          auto it = tab.find(i);
+          Sym role = (it != tab.end() && it->second != "?") ? it->second : "";
+          if (self && exitRole.count(FD->getParamDecl(i))) role = exitRole[FD->getParamDecl(i)];
+          if (!role.empty() && role.rfind("this.", 0) == 0) define(S, A, role); else if (const VarDecl *VD = handleVar(A)) {
+            // unknown result forest: if the variable is our own out-parameter with a role, note that role for the callee
+            if (exitRole.count(VD) && role.empty()) { if (!tab.count(i)) tab[i] = exitRole[VD]; else if (tab[i] != exitRole[VD]) tab[i] = "?"; }
+            S.hv[VD] = role;
+          }
+          continue;
+        }
+        if (have == STAR) continue;
+        if (have.rfind("this.", 0) == 0) {
+          Sym r = S.find(have);
+          (void)r;
+          auto it = tab.find(i);
+          if (it == tab.end()) tab[i] = have;
+          else if (it->second != "?" && !S.same(it->second, have)) {
+            if (self) { check(CE); report("ftype.mix", CE, n + "[arg " + std::to_string(i + 1) + "]", "recursive call passes a handle of " + have + " in the position of a handle of " + it->second); }
+            else it->second = "?";
+          }
+        } else if (have.empty()) {
+          // unknown symbol flowing into a typed helper parameter: learn it
+          auto it = tab.find(i);
+          if (it != tab.end() && it->second != "?") if (const VarDecl *VD = handleVar(A)) { S.hv[VD] = it->second; }
+        }
+      }
+      return;
+    }
+    // policy-style static helpers: (forest* f, [ev], handle h) groups must pair up at the call
+    {
+      Sym lastForest;
+      bool grouped = false;
+      for (unsigned i = 0; i + off < CE->getNumArgs() && i < C->getNumParams(); i++) {
+        QualType PT = C->getParamDecl(i)->getType();
+        const Expr *A = CE->getArg(i + off);
+        if (PT->isPointerType() && isRec(PT, "forest")) { lastForest = forestSym(A); grouped = true; continue; }
+        bool ref;
+        if (isNodeHandleType(PT, ref)) {
+          if (grouped && !lastForest.empty()) {
+            bool isOut = ref && !PT.getNonReferenceType().isConstQualified();
+            if (isOut && (n == "apply" || n == "makeEqualResult" || n == "setUnreachable")) define(S, A, lastForest);
+            else require(S, A, lastForest, CE, n + "[paired with " + lastForest + "]");
+          }
+          continue;
+        }
+        if (isRec(PT, "edge_value")) continue;
+        lastForest.clear();
+        grouped = false;
+      }
+    }
+  }
+
+  void stmt(St &S, const Stmt *X) {
+    if (auto *CE = dyn_cast<CallExpr>(X)) { handleCall(S, CE); return; }
+    if (auto *CC = dyn_cast<CXXConstructExpr>(X)) {
+      // dd_edge e(F)
+      (void)CC;
+      return;
+    }
+    if (auto *DS = dyn_cast<DeclStmt>(X)) {
+      for (auto *D : DS->decls()) if (auto *VD = dyn_cast<VarDecl>(D)) {
+        if (isRec(VD->getType(), "unpacked_node") && VD->getType()->isPointerType()) { if (VD->hasInit()) noteNodeInit(S, VD, VD->getInit(), X); continue; }
+        if (isNodeHandleType(VD->getType()) && !VD->getType()->isReferenceType()) { S.hv[VD] = VD->hasInit() ? symOf(S, VD->getInit()) : ""; if (!S.hv[VD].empty()) nTyped++; continue; }
+        if (isRec(VD->getType(), "dd_edge") && !VD->getType()->isPointerType() && !VD->getType()->isReferenceType() && VD->hasInit()) {
+          if (auto *CE = dyn_cast<CXXConstructExpr>(strip(VD->getInit()))) {
+            if (CE->getNumArgs() >= 1 && isForestExpr(CE->getArg(0))) { Sym f = forestSym(CE->getArg(0)); if (!f.empty()) S.unite("edge." + VD->getNameAsString(), f); }
+            else if (CE->getNumArgs() == 1 && isRec(CE->getArg(0)->getType(), "dd_edge")) { Sym o = edgeSym(CE->getArg(0)); if (!o.empty()) S.unite("edge." + VD->getNameAsString(), o); }
+          }
+        }
+        if (VD->getType()->isPointerType() && isRec(VD->getType(), "forest") && VD->hasInit()) { Sym f = forestSym(VD->getInit()); if (!f.empty()) S.unite("var." + VD->getNameAsString(), f); }
+      }
+      return;
+    }
+    if (auto *BO = dyn_cast<BinaryOperator>(X)) {
+      if (BO->getOpcode() != BO_Assign) return;
+      if (const VarDecl *NV = nodeVar(BO->getLHS())) { if (NV->getType()->isPointerType()) noteNodeInit(S, NV, BO->getRHS(), X); return; }
+      if (const VarDecl *HV = handleVar(BO->getLHS())) { S.hv[HV] = symOf(S, BO->getRHS()); if (!S.hv[HV].empty()) nTyped++; return; }
+      return;
+    }
+  }
+
+  bool refine(St &N, const Expr *C0, bool truth) {
+    const Expr *C = strip(C0);
+    while (auto *UO = dyn_cast_or_null<UnaryOperator>(C)) { if (UO->getOpcode() != UO_LNot) break; truth = !truth; C = strip(UO->getSubExpr()); }
+    if (!C) return true;
+    auto star = [&](const Expr *X) { if (const VarDecl *VD = handleVar(X)) N.hv[VD] = STAR; };
+    if (const VarDecl *VD = handleVar(C)) { if (!truth) N.hv[VD] = STAR; return true; }
+    if (auto *BO = dyn_cast<BinaryOperator>(C)) {
+      auto op = BO->getOpcode();
+      const Expr *L = strip(BO->getLHS()), *R = strip(BO->getRHS());
+      if (op == BO_EQ || op == BO_NE) {
+        bool eq = (op == BO_EQ) == truth;
+        if (isForestExpr(L) && isForestExpr(R)) { if (eq) { Sym a = forestSym(L), b = forestSym(R); if (!a.empty() && !b.empty()) N.unite(a, b); } return true; }
+        auto isTermConst = [&](const Expr *E) { if (isa<IntegerLiteral>(E)) return true; if (auto *U = dyn_cast<UnaryOperator>(E)) return U->getOpcode() == UO_Minus; if (auto *DR = dyn_cast<DeclRefExpr>(E)) return DR->getDecl()->getNameAsString().rfind("OMEGA_", 0) == 0; return false; };
+        if (eq) { if (isTermConst(L) && handleVar(R)) star(R); if (isTermConst(R) && handleVar(L)) star(L); }
+        return true;
+      }
+      if ((op == BO_LE || op == BO_LT) && truth && handleVar(L)) { Expr::EvalResult ER; if (R->EvaluateAsInt(ER, Ctx)) { long v = ER.Val.getInt().getExtValue(); if ((op == BO_LE && v <= 0) || (op == BO_LT && v <= 1)) star(L); } return true; }
+      if ((op == BO_GT || op == BO_GE) && !truth && handleVar(L)) { Expr::EvalResult ER; if (R->EvaluateAsInt(ER, Ctx)) { long v = ER.Val.getInt().getExtValue(); if ((op == BO_GT && v <= 0) || (op == BO_GE && v <= 1)) star(L); } return true; }
+      return true;
+    }
+    if (auto *CE = dyn_cast<CallExpr>(C)) if (const FunctionDecl *F = calleeOf(CE)) {
+      std::string n = F->getNameAsString();
+      if (truth && (n == "isTerminalNode" || n == "isTransparentEdge" || n == "isUnreachable"))
+        for (unsigned i = 0; i < CE->getNumArgs() && i < F->getNumParams(); i++) if (isNodeHandleType(F->getParamDecl(i)->getType())) star(CE->getArg(i));
+      if (auto *MC = dyn_cast<CXXMemberCallExpr>(CE)) {
+        const Expr *Obj = MC->getImplicitObjectArgument();
+        if (truth && n == "isAttachedTo" && CE->getNumArgs() == 1 && isRec(Obj->getType(), "dd_edge")) { Sym e = edgeSym(Obj), f = forestSym(CE->getArg(0)); if (!e.empty() && !f.empty()) N.unite(e, f); }
+        if (truth && n == "sameForest" && CE->getNumArgs() == 1 && isRec(Obj->getType(), "dd_edge")) { Sym a = edgeSym(Obj), b = edgeSym(CE->getArg(0)); if (!a.empty() && !b.empty()) N.unite(a, b); }
+      }
+    }
+    return true;
+  }
+
+  void checkExit(St &S, const Stmt *At) {
+    for (auto &p : exitRole) {
+      auto it = S.hv.find(p.first);
+      if (it == S.hv.end() || it->second.empty()) continue;
+      check(At);
+      if (!S.same(it->second, p.second))
+        report("ftype.mix", At, "result:" + p.first->getNameAsString(), "result parameter '" + p.first->getNameAsString() + "' must be a node of " + p.second + " but holds a handle of " + it->second + " at exit");
+    }
+  }
+
+  void run() {
+    std::unique_ptr<CFG> cfg = buildCFG(Ctx, FD);
+    if (!cfg) { giveUp = true; return; }
+    St Init;
+    entry(Init);
+    std::map<const CFGBlock *, std::set<std::string>> seen;
+    std::deque<std::pair<const CFGBlock *, St>> work;
+    work.push_back({&cfg->getEntry(), Init});
+    while (!work.empty()) {
+      auto BS = work.front();
+      work.pop_front();
+      const CFGBlock *B = BS.first;
+      St S = BS.second;
+      if (!seen[B].insert(S.key()).second) continue;
+      if (++nStates > 60000) { giveUp = true; return; }
+      bool thrown = false;
+      for (const CFGElement &E : *B) if (auto CS = E.getAs<CFGStmt>()) {
+        const Stmt *X = CS->getStmt();
+        if (isa<CXXThrowExpr>(X)) { thrown = true; break; }
+        if (auto *RS = dyn_cast<ReturnStmt>(X)) { (void)RS; }
+        stmt(S, X);
+      }
+      if (thrown || B->hasNoReturnElement()) continue;
+      if (B == &cfg->getExit()) { checkExit(S, FD->getBody()); continue; }
+      const Expr *TC = effectiveCond(B);
+      unsigned si = 0;
+      for (auto SI = B->succ_begin(); SI != B->succ_end(); ++SI, ++si) {
+        const CFGBlock *Su = SI->getReachableBlock();
+        if (!Su) continue;
+        St N = S;
+        bool ok = true;
+        if (TC && B->succ_size() == 2) ok = refine(N, TC, si == 0);
+        if (ok) work.push_back({Su, N});
+      }
+    }
+  }
+};
+
+} // namespace
+
+Value runFtype(ASTContext &Ctx) {
+  const SourceManager &SM = Ctx.getSourceManager();
+  classFacts.clear();
+  inferred.clear();
+  std::vector<const FunctionDecl *> fns;
+  forEachFunction(Ctx, [&](const FunctionDecl *FD) { fns.push_back(FD); });
+  // rounds: entry points first (their calls teach the helpers' parameter roles), then everything again
+  std::map<const FunctionDecl *, An *> last;
+  std::vector<std::unique_ptr<An>> keep;
+  for (int round = 0; round < 3; round++) {
+    for (const FunctionDecl *FD : fns) {
+      bool hasHandle = false;
+      for (unsigned i = 0; i < FD->getNumParams(); i++) if (isNodeHandleType(FD->getParamDecl(i)->getType())) hasHandle = true;
+      if (!hasHandle) {
+        // still analyse: locals may carry handles (wrappers taking dd_edge arguments)
+      }
+      auto A = std::make_unique<An>(Ctx, FD);
+      A->run();
+      last[FD] = A.get();
+      keep.push_back(std::move(A));
+    }
+  }
+  Array out;
+  for (const FunctionDecl *FD : fns) {
+    An *A = last[FD];
+    if (!A || (A->nChecks == 0 && A->diags.empty())) continue;
+    Object f;
+    f["q"] = qualName(FD);
+    f["inst"] = instName(Ctx, FD);
+    f["sig"] = signatureOf(FD);
+    f["file"] = relPath(SM, FD->getLocation());
+    f["line"] = lineOf(SM, FD->getLocation());
+    f["checks"] = (int64_t)A->nChecks;
+    f["states"] = (int64_t)A->nStates;
+    f["gave_up"] = A->giveUp;
+    Array ds;
+    for (auto &d : A->diags) {
+      Object o;
+      o["rule"] = d.rule; o["sink"] = d.sink; o["msg"] = d.msg; o["line"] = (int64_t)d.line;
+      ds.push_back(std::move(o));
+    }
+    f["diags"] = std::move(ds);
+    out.push_back(std::move(f));
+  }
+  Object top;
+  top["functions"] = std::move(out);
+  return Value(std::move(top));
+}
+
+} // namespace msa
